@@ -19,7 +19,7 @@ from xsim.probe import SIM
 PID = "C20"
 LEVEL = "exploration"
 TIERS = {
-    "quick": {"runs": 24000, "batch": 400, "timeout_s": 300, "max_ops": 10, "shrink_budget": 250},
+    "quick": {"runs": 80000, "batch": 400, "timeout_s": 300, "max_ops": 10, "shrink_budget": 250},
     "thorough": {"runs": 600000, "batch": 2000, "timeout_s": 900, "max_ops": 14, "shrink_budget": 400},
 }
 RULE = ("Each run draws a nested structure (lists, dicts, attribute-bearing objects incl. one whose class forbids assignment, nn.Module, containers referenced twice, tuples and "
@@ -542,7 +542,10 @@ def mutate_containers(obj, step):
 
 # ------------------------------------------------------------------ one run
 def prereq_flat(st, u):
-    return bool(st["GT"][u])
+    # either getter of the same unique mode has shown the Packer the shapes (and with them the element counts):
+    # the flat constructor must work after the list getter too (list getter -> flat constructor used to die in an
+    # internal "Please report to Github" assertion)
+    return bool(st["GT"][u] or st["GL"][u])
 
 
 def make_pool(cs):
@@ -702,7 +705,7 @@ def run(cs, cfg):
                 name = "CT" if flat else "CL"
                 opseq.append("%s%d%s" % (name, u, "!" * (bad > 0)))
                 rec.update(op=name, unique=u, arg=["valid", "wrong_len", "wrong_shape"][bad])
-                prereq = st["GT"][u] if flat else st["GL"][u]
+                prereq = prereq_flat(st, u) if flat else st["GL"][u]
                 expected = None
                 if not flat:
                     new = [fresh(t.shape) for t in tgt]
